@@ -36,7 +36,7 @@ def decorate(rng, rec, stratum):
             else:
                 v = v + rng.choice([" prog", "=x", "#1", "é"] if stratum == "special" else ['"q'])
         elif k == "info" and rng.random() < 0.5:
-            v = v + rng.choice([" = b", " #c", ", d"])
+            v = v + rng.choice([" = b", " #c", ", d", "  -  twice", " (a  b)"])
         elif k in ("capname", "fstype", "signal", "info") and stratum == "hexlooking" and rng.random() < 0.5:
             v = rng.choice(["ABCDEF", "CAFE1234", "DEADBEEF", "0123"])
         elif k in ("name", "profile") and stratum == "hexlooking" and rng.random() < 0.4 and ident(rec)[0] != k:
